@@ -111,6 +111,7 @@ class CheckSeam:
         self.installed = False
         self.calls = 0
         self.force_unknown = set()
+        self.force_all = False  # answer `unknown` to every branching query (as a too-short --solver-timeout-branching would)
         self.log = None  # list of (index, real answer, returned answer)
         self.orig = None
 
@@ -125,6 +126,8 @@ class CheckSeam:
         def check(path_self, cond):
             idx = seam.calls
             seam.calls += 1
+            if seam.force_all:
+                return z3.unknown
             real = seam.orig(path_self, cond)
             ans = z3.unknown if idx in seam.force_unknown else real
             if seam.log is not None:
